@@ -48,6 +48,7 @@ TABLE = {
     "../seeded/C03-5/patch.diff": ("contracts.c03", "lower_mem_decl", None),
     "../seeded/C13-6/patch.diff": ("contracts.c03", "_coerce_to_signal_type", None),
     "../seeded/C14-5/patch.diff": ("contracts.c14", "_infer_bundle_literal_type", "elements: bun('a',); siga; "),
+    "../seeded/C05-2/patch.diff": ("contracts.c05", "_handle_latch_write_standard", "sr_latch"),
     "../seeded/C01-4/patch.diff": ("contracts.c07", "_configure_decider", "operation = <"),
 }
 RUNNER = r'''
